@@ -25,7 +25,7 @@ package fx
 //@   property C04
 //@   flag private_channels callbacks_noheap noheap:cancel nopanic:cancel
 //@   ghost at entry: armT = false
-//@   ghost at after Done#0: armT = true
+//@   ghost at arm ctx.Done(): armT = true
 //@   call WithTimeout#0: assert arg_timeout == timeout
 //@   ensures implies(armT, result == ctxErr[ctx])
 //@   loop 0: invariant true
